@@ -1,5 +1,8 @@
 """Suites of C01 / C03 around the language rules.
 
+  suite_literals     `fe.literals`: literals of every kind and of unusual size at every place a literal is converted
+  suite_annargs      `fe.annargs`: argument shapes of every built-in annotation type and four custom ones
+
 Direct oracles on the REAL compiler (testing; independent of the Lean models):
   suite_valid        generated legal models (all presets) x 2 layouts must compile
   suite_violations   rule x site x model injections (harness/inject.py) must be refused with InvalidSpec
@@ -90,9 +93,10 @@ INT_POOL = [0, 1, -1, 2, 3, 5, 2 ** 31 - 1, 2 ** 31, -2 ** 31, -2 ** 31 - 1, 2 *
             -2 ** 63, -2 ** 63 - 1, 2 ** 64 - 1, 2 ** 64, 2 ** 53 + 1, 340282000000000000000000000000000000000,
             340282000000000000000000000000000000001, 340283000000000000000000000000000000000,
             -340282000000000000000000000000000000000, -340283000000000000000000000000000000000,
-            10 ** 400, -10 ** 400, (2 ** 1024 - 2 ** 970) - 1, 2 ** 1024 - 2 ** 970]
+            10 ** 400, -10 ** 400, (2 ** 1024 - 2 ** 970) - 1, 2 ** 1024 - 2 ** 970, 10 ** 308, 10 ** 1000, 10 ** 4299,
+            -10 ** 4298]
 FLOAT_POOL = ['0.0', '1.5', '-1.5', '0.5', '1.0', '2.0', '3.0', '3.40282e38', '3.40283e38', '-3.40282e38', '-3.40283e38',
-              '1e39', '1e999', '-1e999', '1e-400', '2147483647.0', '2147483648.5', '-0.0']
+              '1e39', '1e999', '-1e999', '1e-400', '2147483647.0', '2147483648.5', '-0.0', '1e99999999999', '1' + '0' * 400 + '.5']
 STR_POOL = ['', 'a', '[a-z]+', '(', '%Y-%m-%d', '\\d{3', 'x y', 'a{99999999999999}']
 TYPE_POOL = ['String', 'String(min_length=1)', 'Int32', 'List(String)', 'S0', 'A0', 'A1', 'String?', 'Void', 'Bytes',
              'Map(String, Int32)', 'Timestamp("%Y")', 'List(3)', 'Nope']
@@ -188,7 +192,7 @@ def params_grid(rng, cap):
         if e not in seen:
             seen.add(e)
             out.append(e)
-    return out[:max(cap, len(exprs))] if cap >= len(out) else out[:cap]
+    return out            # the systematic part is never cut; random combinations fill up to `cap`
 
 
 PARAMS_HEADER = ('namespace ns\n\nstruct S0\n    x Int32\n\nalias A0 = String\n\nalias A1 = String?\n\n')
@@ -400,7 +404,7 @@ def suite_params(ck, report='C01', cap=None):
     """correspondence `fe.params` + the direct oracle of the component: the specification-level verdict
     (`legalRef`, evaluated by the driver from the lang_ref table) against acceptance by the real compiler"""
     rng = ck.rng
-    exprs = params_grid(rng, cap or ck.scale(9000, 30000))
+    exprs = params_grid(rng, cap or ck.scale(11000, 30000))
     cases, reqs = [], []
     skipped = 0
     for e in exprs:
@@ -627,6 +631,221 @@ def suite_names(ck, report='C01', n=None):
                                  {'specs': sp, 'expect': 'accepted', 'suite': 'fe.names', 'files': c,
                                   'message': spec_message(sp)})
     ck.sample({'suite': 'fe.names', 'files': cases[len(NAMES_SEEDS) + 1]})
+
+
+# ================================================================================================ fe.literals
+
+def _digits(n, lead='1'):
+    return lead + '0' * n
+
+
+# literals of unusual SIZE: where a conversion (int(), float(), re, strptime, len) can fail instead of a comparison
+LITS_HUGE = [
+    _digits(22), _digits(308), _digits(309), str(2 ** 1024), '-' + str(2 ** 1024), str(2 ** 1024 - 2 ** 970 - 1), _digits(400),
+    '-' + _digits(400), _digits(1000), _digits(4299), '-' + _digits(4298), _digits(4300), _digits(4400), '9' * 4300,
+    '1e308', '1.8e308', '1e309', '-1e309', '1e999', '2e400', '1e-400', '1e-999', '1e4000', '1e99999999999', '1e-99999999999',
+    '0.' + '0' * 400 + '1', _digits(400) + '.5', '-' + _digits(310) + '.0',
+    '"%s"' % ('a' * 1000), '"%s"' % ('a' * 100000), '"%s"' % ('9' * 5000), '"%s"' % ('%Y' * 3000), '"%s"' % ('(' * 300 + ')' * 300),
+    '"a{99999999999999}"',
+]
+LITS_PLAIN = ['0', '1', '-1', '2147483648', '18446744073709551616', '0.0', '1.5', '-1.5', '-0.0', '""', '"a"', '"abc"', '"2020"',
+              '"\\n\\t\\\\"', '"Ünï"', 'true', 'false', 'null', 'x', 'other', '[1]', '[]', '{"a": 1}', '{}']
+
+LIT_TYPES = ['Int32', 'Int64', 'UInt32', 'UInt64', 'Float32', 'Float64', 'String', 'Boolean', 'Bytes', 'Timestamp("%Y")',
+             'Float64(max_value=3)', 'Float32(min_value=-1)', 'Int64(min_value=0)', 'String(max_length=3)', 'String(pattern="[a-z]+")',
+             'Float64?', 'String?', 'cmn.AF', 'cmn.AI', 'cmn.U', 'List(Float64)', 'Map(String, Float32)']
+LIT_POSITIONS = ['default', 'example', 'attr', 'annot_pos', 'annot_kw', 'param_default']
+LIT_ARG_SLOTS = ['Int64(max_value=%s)', 'UInt32(min_value=%s)', 'Float64(min_value=%s)', 'Float32(max_value=%s)', 'String(max_length=%s)',
+                 'String(min_length=%s)', 'String(pattern=%s)', 'List(String, max_items=%s)', 'List(String, min_items=%s)', 'Timestamp(%s)']
+
+_CMN = ('cmn.stone', 'namespace cmn\n\nunion U\n    x\n    y Int32\n\nalias AF = Float64\n\nalias AI = Int32(max_value=5)\n')
+
+
+def literal_spec(pos, ty, lit):
+    """a spec that is legal except (possibly) for the literal `lit` written at position `pos` for a value of type `ty`"""
+    if pos == 'arg':
+        return [('ns.stone', 'namespace ns\n\nstruct S\n    f %s\n' % (ty % lit))]
+    if pos == 'default':
+        return [_CMN, ('ns.stone', 'namespace ns\n\nimport cmn\n\nstruct S\n    f %s = %s\n' % (ty, lit))]
+    if pos == 'example':
+        val = {'List(Float64)': '[%s]' % lit, 'Map(String, Float32)': '{"k": %s}' % lit}.get(ty, lit)
+        return [_CMN, ('ns.stone', 'namespace ns\n\nimport cmn\n\nstruct S\n    f %s\n    example default\n        f = %s\n' % (ty, val))]
+    if pos == 'attr':
+        return [_CMN, ('cfg.stone', 'namespace stone_cfg\n\nimport cmn\n\nstruct Route\n    k %s\n' % ty),
+                ('ns.stone', 'namespace ns\n\nroute r(Void, Void, Void)\n    attrs\n        k = %s\n' % lit)]
+    head = 'namespace ns\n\nimport cmn\n\nannotation_type AT\n    p %s%s\n\nannotation An = AT(%s)\n\nstruct S\n    f String\n        @An\n'
+    if pos == 'annot_pos':
+        return [_CMN, ('ns.stone', head % (ty, '', lit))]
+    if pos == 'annot_kw':
+        return [_CMN, ('ns.stone', head % (ty, '', 'p=%s' % lit))]
+    if pos == 'param_default':
+        return [_CMN, ('ns.stone', head % (ty, ' = %s' % lit, ''))]
+    raise ValueError(pos)
+
+
+def suite_literals(ck, report='C03', n_plain=None):
+    """`fe.literals`: literals of every kind and of unusual size (integers of hundreds / thousands of digits, floats with
+    huge exponents, very long strings) at every place a literal is converted or checked -- field defaults, example
+    values, route attributes, annotation arguments (positional / keyword), annotation-type parameter defaults, type
+    arguments -- for every primitive type (plain, bounded, nullable, behind an alias), unions, lists and maps.
+    Oracle: the compiler returns or raises InvalidSpec (C03).  The huge literals are exhaustive over type x position;
+    the ordinary ones are sampled."""
+    rng = ck.rng
+    combos = [(p, t, l) for p in LIT_POSITIONS for t in LIT_TYPES for l in LITS_HUGE]
+    combos += [('arg', t, l) for t in LIT_ARG_SLOTS for l in LITS_HUGE + LITS_PLAIN]
+    plain = [(p, t, l) for p in LIT_POSITIONS for t in LIT_TYPES for l in LITS_PLAIN]
+    k = n_plain if n_plain is not None else ck.scale(800, len(plain))
+    combos += plain if k >= len(plain) else rng.sample(plain, k)
+    specs = [literal_spec(*c) for c in combos]
+    verdicts = compile_all(specs, chunk=40)
+    seen = set()
+    for (pos, ty, lit), sp, v in zip(combos, specs, verdicts):
+        shown = lit if len(lit) <= 40 else '%s...(%d chars)' % (lit[:12], len(lit))
+        ck.case(('fe.literals', pos, ty, lit), nontrivial=True)
+        ck.hist('fe.literals.position', pos)
+        ck.hist('fe.literals.outcome', v['k'] if v['k'] != 'crash' else 'crash:' + v['exc'])
+        if v['k'] != 'crash':
+            continue
+        if report != 'C03':
+            ck.stat('fe.literals.escapes_left_to_C03')
+            continue
+        if (v['exc'], v['where']) in seen:
+            continue
+        seen.add((v['exc'], v['where']))
+        ck.failing_input('C03: %s escapes the frontend (%s): %s literal %s for %s' % (v['exc'], v['where'], pos, shown, ty),
+                         {'kind': 'escape', 'exc': v['exc'], 'where': v['where']},
+                         {'specs': [list(f) for f in sp], 'origin': 'fe.literals', 'verdict': v, 'position': pos, 'type': ty,
+                          'literal': shown})
+    ck.sample({'suite': 'fe.literals', 'position': combos[0][0], 'type': combos[0][1], 'literal_chars': len(combos[0][2])})
+
+
+# ================================================================================================ fe.annargs
+
+# annotation types: name -> [(parameter, kind, required)]; kind: the literal kind a value must have (None = any)
+ANN_BUILTIN = {
+    'Deprecated': [], 'Preview': [], 'Omitted': [('omitted_caller', 'str', True)],
+    'RedactedBlot': [('regex', 'regex', False)], 'RedactedHash': [('regex', 'regex', False)],
+}
+ANN_CUSTOM = {
+    'T0': [], 'T1': [('x', 'int', True)], 'T2': [('x', 'int', True), ('y', 'str', False)],
+    'T3': [('s', 'str', True), ('b', 'bool', False), ('fl', 'float', False)],
+}
+ANN_CUSTOM_TEXT = ('annotation_type T0\n    "d"\n\nannotation_type T1\n    x Int32\n\nannotation_type T2\n    x Int32\n    y String = "d"\n\n'
+                   'annotation_type T3\n    s String\n    b Boolean = false\n    fl Float64 = 1.5\n\n')
+ANN_VALUES = [('"a"', 'str'), ('"[a-z]+"', 'str'), ('3', 'int'), ('1.5', 'float'), ('true', 'bool'), ('null', 'null')]
+
+
+def _kind_ok(want, have):
+    """True / False / None (not judged): does a literal of kind `have` fit a parameter of kind `want`"""
+    if want in ('str', 'regex'):
+        return True if have == 'str' else (None if want == 'regex' or have == 'null' else False)
+    if want == 'int':
+        return True if have == 'int' else (None if have in ('bool', 'null') else False)
+    if want == 'float':
+        return True if have in ('float', 'int') else (None if have in ('bool', 'null') else False)
+    if want == 'bool':
+        return True if have == 'bool' else (None if have == 'null' else False)
+    return None
+
+
+def annargs_legal(params, builtin, pos, kw):
+    """independent evaluation of the argument rules (B18, B22; lang_ref "Annotations"): True legal, False illegal,
+    None not judged (value kinds of the built-in types, booleans as numbers, null)"""
+    names = [p for p, _k, _r in params]
+    if pos and kw:
+        return False                                  # B18: positional and keyword arguments mixed
+    if len(pos) > len(params):
+        return False                                  # too many
+    keys = [k for k, _v in kw]
+    if len(set(keys)) != len(keys) or any(k not in names for k in keys):
+        return False                                  # a keyword twice / unknown
+    given = dict(zip(names, pos))
+    given.update(dict(kw))
+    if any(r and p not in given for p, _k, r in params):
+        return False                                  # a required argument is missing
+    verdict = True
+    for p, k, _r in params:
+        if p in given:
+            fit = _kind_ok(k, given[p][1])
+            if builtin and k != 'regex' and fit is False:
+                fit = None                            # the built-in types do not check the kind of their arguments
+            if fit is False:
+                return False
+            if fit is None:
+                verdict = None
+    return verdict
+
+
+def annargs_grid(rng, cap):
+    """(type name, positional [(text, kind)], keyword [(name, (text, kind))], with parentheses) -- every shape of up
+    to 3 positional and up to 2 keyword arguments over the parameter names of the type (+ an unknown one, + a name of
+    another type), the same name twice, positional and keyword mixed, the bare `annotation A = T` form"""
+    out = []
+    v0 = ANN_VALUES
+    for tname, params in list(ANN_BUILTIN.items()) + list(ANN_CUSTOM.items()):
+        names = [p for p, _k, _r in params] + ['bogus'] + (['regex'] if tname == 'Omitted' else ['omitted_caller'] if tname in ANN_BUILTIN else ['regex'])
+        pos_shapes = [[]] + [[v] for v in v0] + [[a, b] for a in v0[:3] for b in (v0[0], v0[2])] + [[v0[0], v0[2], v0[0]], [v0[2], v0[0], v0[3]]]
+        kw_shapes = [[]] + [[(n, v)] for n in names for v in (v0[0], v0[2], v0[4], v0[5])]
+        kw_shapes += [[(a, v0[0]), (b, v0[2])] for a in names for b in names] + [[(a, v0[2]), (b, v0[0])] for a in names[:2] for b in names[:2]]
+        out.append((tname, [], [], False))
+        for ps in pos_shapes:
+            for ks in kw_shapes:
+                out.append((tname, ps, ks, True))
+    if cap and len(out) > cap:
+        # keep every mixed / duplicated / arity shape with the first value of each slot, sample the rest
+        key = [o for o in out if all(v == v0[0] or v == v0[2] for v in o[1]) and len(o[2]) != 1]
+        rest = [o for o in out if o not in key]
+        out = key + rng.sample(rest, max(0, cap - len(key)))
+    return out
+
+
+def annargs_spec(tname, pos, kw, parens):
+    args = ', '.join([t for t, _k in pos] + ['%s=%s' % (n, v[0]) for n, v in kw])
+    expr = '%s(%s)' % (tname, args) if parens else tname
+    return [('ns.stone', 'namespace ns\n\n%sannotation An = %s\n\nstruct S\n    f String\n        @An\n'
+             % (ANN_CUSTOM_TEXT if tname in ANN_CUSTOM else '', expr))]
+
+
+def suite_annargs(ck, report='C01', cap=None):
+    """`fe.annargs`: a systematic grid of argument shapes for every built-in annotation type and four custom ones, like
+    `fe.params` for the built-in data types.  C03: nothing but InvalidSpec escapes.  C01: the shape rules (B18 mixed
+    positional / keyword, B22 too many / unknown / missing / wrong kind, a keyword twice) against acceptance."""
+    rng = ck.rng
+    grid = annargs_grid(rng, cap or 0)
+    specs = [annargs_spec(*g) for g in grid]
+    verdicts = compile_all(specs, chunk=40)
+    seen = set()
+    for (tname, pos, kw, parens), sp, v in zip(grid, specs, verdicts):
+        builtin = tname in ANN_BUILTIN
+        params = (ANN_BUILTIN if builtin else ANN_CUSTOM)[tname]
+        legal = annargs_legal(params, builtin, pos, kw)
+        shape = 'pos%d/kw%d%s%s' % (len(pos), len(kw), '/mixed' if pos and kw else '', '/dupkw' if len({k for k, _ in kw}) < len(kw) else '')
+        ck.case(('fe.annargs', tname, repr(pos), repr(kw), parens), nontrivial=True)
+        ck.hist('fe.annargs.type', tname)
+        ck.hist('fe.annargs.shape', shape)
+        ck.hist('fe.annargs.legal', '%s/%s' % ({True: 'legal', False: 'illegal', None: 'not-judged'}[legal],
+                                               v['k'] if v['k'] != 'crash' else 'crash:' + v['exc']))
+        expr = sp[0][1].split('annotation An = ')[1].split('\n')[0]
+        case = {'specs': [list(f) for f in sp], 'origin': 'fe.annargs', 'verdict': v, 'expr': expr, 'suite': 'fe.annargs'}
+        if v['k'] == 'crash':
+            if report == 'C03':
+                if (v['exc'], v['where']) not in seen:
+                    seen.add((v['exc'], v['where']))
+                    ck.failing_input('C03: %s escapes the frontend (%s): annotation An = %s' % (v['exc'], v['where'], expr),
+                                     {'kind': 'escape', 'exc': v['exc'], 'where': v['where']}, case)
+            else:
+                ck.stat('fe.annargs.escapes_left_to_C03')
+        elif report == 'C01':
+            kind = 'builtin' if builtin else 'custom'
+            if v['k'] == 'ok' and legal is False:
+                ck.failing_input('C01: an illegal annotation argument list is accepted: %s' % expr,
+                                 {'kind': 'accepted', 'rule': 'B18/B22', 'shape': '%s:%s' % (kind, shape)},
+                                 dict(case, expect='refused', rule='B18/B22'))
+            elif v['k'] == 'spec' and legal is True:
+                ck.failing_input('C01: a legal annotation argument list is refused: %s' % expr,
+                                 {'kind': 'refused', 'rule': 'B18/B22', 'shape': '%s:%s' % (kind, shape)},
+                                 dict(case, expect='accepted', rule='B18/B22', message=spec_message(sp)))
+    ck.sample({'suite': 'fe.annargs', 'expr': annargs_spec(*grid[len(grid) // 2])[0][1].split('annotation An = ')[1].split('\n')[0]})
 
 
 # ================================================================================================ by-construction oracle
